@@ -186,7 +186,8 @@ def execute(case, pollution):
     out["two_qubit_drawn"] = any(x.endswith(":add_emitter_cnot") or x.endswith(":add_measurement_cnot_and_reset") for x in sites)
     out["selection_drawn"] = any(x.endswith(":tournament_selection") for x in sites)
     res = s.result
-    out["result_is_hof0"] = bool(res is not None and res[1] is s.hof[0][1] and (res[0] == s.hof[0][0] or (np.isnan(res[0]) and np.isnan(s.hof[0][0]))))
+    same_circ = res is not None and (res[1] is s.hof[0][1] or (res[1] is not None and s.hof[0][1] is not None and res[1].to_openqasm() == s.hof[0][1].to_openqasm()))
+    out["result_is_hof0"] = bool(same_circ and (res[0] == s.hof[0][0] or (np.isnan(res[0]) and np.isnan(s.hof[0][0]))))
     out["result_score"] = None if res is None else float(res[0])
     # H2: re-evaluate every stored circuit with a fresh compiler of the same setting
     h2 = []
@@ -339,7 +340,9 @@ def run_case(case):
     e2 = execute(case, pol[1])
     ctx.fault("rng_pollution")
     ctx.steps += 1
-    if e2["exc"] or e2["digest"] != e1["digest"] or e2["draw_digest"] != e1["draw_digest"]:
+    if not e2["exc"] and e2["digest"] == e1["digest"] and e2["draw_digest"] != e1["draw_digest"]:
+        ctx.probe("same_hof_but_different_draw_log")  # not part of the property
+    if e2["exc"] or e2["digest"] != e1["digest"]:
         ctx.violate("R1_not_reproducible_in_process", 1, f"same seed {case['seed']}, different RNG history before seed(): hall of fame {e1['digest']} vs {e2.get('digest')} (draw logs {e1['draw_digest']} vs {e2.get('draw_digest')}, exc={e2['exc']})", base_sig)
         return ctx.result(nontrivial, sample=case)
     # R2: other interpreters with other hash seeds
